@@ -177,6 +177,7 @@ Definition hints_ok (n : nat) (rows : list (list nat)) (comps : list comp) : boo
    connected components come from scipy and are an input of the model (checked by graph_ok) ---- *)
 Definition adj (rows : list (list nat)) (u v : nat) : bool :=
   negb (Nat.eqb u v) && existsb (fun row => memb u row && memb v row) rows.
+Definition degree (rows : list (list nat)) (n u : nat) : nat := length (filter (adj rows u) (seq 0 n)).
 Fixpoint select_leaves (rows : list (list nat)) (order avail leaves : list nat) : list nat :=
   match order with
   | [] => leaves
